@@ -281,6 +281,25 @@ class DocGen:
                     if r.random() < 0.15:
                         path.append(r.choice(["x", "y"]))
                     fam.append(Entry("attrpath", path, value=self.value()))
+                # twins: the same leaf name with the same value under another prefix
+                # (`services.a.enable = true; services.b.enable = true;`, `x.enable` / `y.enable`)
+                if r.random() < 0.25:
+                    tw_val = r.choice(["true", "false", '"1.2.3"', "[ ]"])
+                    tw_leaf = r.choice(["enable", "version", "package"])
+                    if r.random() < 0.5:
+                        self.n += 2
+                        mids = [f"svc{self.n - 1}", f"svc{self.n}"]
+                        fam.append(Entry("attrpath", [nm, mids[0], tw_leaf], value=tw_val))
+                        fam.append(Entry("attrpath", [nm, mids[1], tw_leaf], value=tw_val))
+                    else:
+                        if tw_leaf not in leaves:
+                            fam.append(Entry("attrpath", [nm, tw_leaf], value=tw_val))
+                            self._twin = (tw_leaf, tw_val)
+                elif getattr(self, "_twin", None) and r.random() < 0.6:
+                    tw_leaf, tw_val = self._twin
+                    self._twin = None
+                    if tw_leaf not in leaves:
+                        fam.append(Entry("attrpath", [nm, tw_leaf], value=tw_val))
                 for e in fam[:-1]:
                     self.decorate(e, first=not s.entries)
                     s.entries.append(e)
